@@ -71,6 +71,7 @@ THEOREMS = [
     'C17_arrives_options',
     'C17_arrives_options_more',
     'C17_arrives_options_arrays',
+    'C17_fill_array_first_entry',
     'C17_surplus_surface_params_exact',
     'C17_fill_array_trailing_numbers',
     'C17_facet_skipped_cells_unchecked',
@@ -99,7 +100,9 @@ ASSUMPTIONS = [
     'the values the model looks at are the 13th transformation entry, the '
     'nappe selector of cones and the point pairs of X/Y/Z surfaces',
     'ASCII input; numeric tokens without underscores, inf or nan; data cards '
-    'use plain numbers, nR and nJ only (no I, M, LOG)',
+    'use plain numbers, nR, nJ, and on cards read as floats (IMP) nI and xM; '
+    'LOG, and nI / xM inside FILL arrays (dtype int: round()), are outside '
+    'the model (executed, skipped by the tie)',
     'surface numbers below 1000 (no implicit TRCL surfaces); LIKE n BUT is '
     'expanded by the harness the way apply_but does (geometry and options of '
     'n followed by the BUT options; no chains generated); lattice cells have '
@@ -220,8 +223,19 @@ CORPUS = [
     ('control_lattice', _LAT.format(fill='fill=0:1 0:1 0:0 2 2 2 2'), [], None),
     ('control_latopt', _LAT.format(fill='fill=2'), ['--lattice', '1,0:1,0:1'],
      None),
+    ('control_tr', _b(data='tr4 0 0 0 1 0 0 0 1 0 0 0 1'), [], None),
     ('tr_card_m', _b(data='tr4 0 0 0 1 0 0 0 1 0 0 0 1 -1'), [],
      'ETransformation'),
+    ('tr_card_m_twin', _b(data='tr4 1 2 3 0 1 0 -1 0 0 0 0 1\ntr5 1 2 3 0 1 0 -1 0 0 0 0 1 -1'),
+     [], 'ETransformation'),
+    ('trcl_m_twin_of_card', _b(c1='trcl=(1 2 3 0 1 0 -1 0 0 0 0 1 -1)',
+                                data='tr4 1 2 3 0 1 0 -1 0 0 0 0 1'), [],
+     'ETransformation'),
+    ('mixed_fractions_minus_first', _b(data='m2 1001 -2 8016 1'), [],
+     'EMixedSigns'),
+    ('mixed_fractions_minus_minus_plus', _b(data='m2 1001 -2 8016 -1 6000 1'),
+     [], 'EMixedSigns'),
+    ('facet_on_one_piece_surface', _b(c1='1.2'), [], 'ECellConversion'),
     ('star_tr_card_m', _b(data='*tr4 0 0 0 0 90 90 90 0 90 90 90 0 -1'), [],
      'ETransformation'),
     ('trcl_m', _b(c1='trcl=(0 0 0 1 0 0 0 1 0 0 0 1 -1)'), [],
@@ -610,7 +624,7 @@ def rotation_entries(rng):
 
 
 def gen_normtr(rng):
-    n = rng.choice(list(range(0, 17)) + [13, 13, 13, 12, 3, 9, 6])
+    n = rng.choice(list(range(0, 17)) + [13, 13, 13, 12, 12, 12, 12, 3, 9, 6])
     full = rotation_entries(rng) + [1.0, 2.0, 0.5, 1.5]
     entries = full[:n]
     if n == 13:
@@ -1041,8 +1055,15 @@ def _run(res, tier, seed, proofs_ok):
 
     # ---- 2c. normalize_transform -----------------------------------------
     cases, metas = [], []
+    twins = []
     for _ in range(300 if quick else 3000):
-        entries = gen_normtr(rng)
+        if twins:
+            entries = twins.pop()
+        else:
+            entries = gen_normtr(rng)
+            if len(entries) == 12 and rng.random() < 0.7:
+                # the same twelve entries again, with a 13th entry m != 1
+                twins.append(entries + [rng.choice([-1.0, 0.0, 2.0])])
         with warnings.catch_warnings():
             warnings.simplefilter('ignore')
             out = impl_normtr(entries)
@@ -1121,11 +1142,11 @@ def _run(res, tier, seed, proofs_ok):
                 toks[-1] = 'r'
             elif how < 0.36 and m > 1:
                 toks[rng.randrange(1, m)] = rng.choice(['j', '2j'])
-            elif how < 0.45 and m > 2:
-                # abbreviations outside the model (the tie skips them, the lines
-                # of expand_data_card are still executed)
+            elif how < 0.6 and m > 2:
+                # nI and xM (modelled on float cards), LOG (outside the model)
                 toks[rng.randrange(1, m - 1)] = rng.choice(
-                    ['2m', '1.5+0m', 'm', 'i', '2i', 'ilog', '2log'])
+                    ['2m', '1.5+0m', 'm', 'i', '2i', '3i', 'ilog', '2log',
+                     '0.5m', 'xm', '0i'])
             elif how < 0.4 and m > 1:
                 # (a first token that is not a number is taken into the card
                 # name by MIP's card splitting: outside the model)
@@ -1180,7 +1201,10 @@ def _run(res, tier, seed, proofs_ok):
             if cls == 'lattice_no_opt' and rng.random() < 0.6:
                 feat.add('latopt')
             base = G.gen_valid_deck(rng, feat)
-            for faulted, where in fun(base, rng):
+            faulted_list = fun(base, rng)
+            if faulted_list and cls in G.AFTER_VALID:
+                decks.append((base, None, f'before {cls}'))
+            for faulted, where in faulted_list:
                 decks.append((faulted, cls, where))
                 made += 1
     deck_cases, deck_metas = [], []
